@@ -287,3 +287,58 @@ def _register():
 
 
 _register()
+
+
+# ------------------------------------------------------------------------------------------------
+# bounded: the 16 real spherical harmonics l <= 3 are orthonormal over the WHOLE sphere (all octants)
+# ------------------------------------------------------------------------------------------------
+
+
+class YlmOrthonormal:
+    """BOUNDED (exact product quadrature for polynomials of degree <= 15 on 12 x 24 nodes in all octants, plus the axis / plane directions): the Gram
+    matrix of Ylm_real(l, m), l <= 3, is the identity, and every harmonic is odd / even under inversion according to (-1)^l."""
+
+    def problems(self):
+        import eminus
+        from eminus.utils import Ylm_real
+
+        eminus.config.backend = "numpy"
+        x, w = np.polynomial.legendre.leggauss(12)
+        phi = (np.arange(24) + 0.37) * 2 * np.pi / 24
+        ct, ph = np.meshgrid(x, phi, indexing="ij")
+        st = np.sqrt(1 - ct**2)
+        G = 1.7 * np.stack([st * np.cos(ph), st * np.sin(ph), ct], axis=-1).reshape(-1, 3)
+        W = (np.repeat(w, 24) * 2 * np.pi / 24)
+        lm = [(l, m) for l in range(4) for m in range(-l, l + 1)]
+        Y = np.array([np.asarray(Ylm_real(l, m, G.copy())) for l, m in lm])
+        gram = (Y * W) @ Y.T
+        bad = []
+        dev = np.abs(gram - np.eye(len(lm)))
+        if dev.max() > 1e-10:
+            i, j = np.unravel_index(np.argmax(dev), dev.shape)
+            bad.append(dict(clause="orthonormality over the sphere", pair=[list(lm[i]), list(lm[j])], overlap=float(gram[i, j])))
+        Ym = np.array([np.asarray(Ylm_real(l, m, -G.copy())) for l, m in lm])
+        par = np.array([(-1) ** l for l, m in lm])[:, None]
+        if np.abs(Ym - par * Y).max() > 1e-10:
+            k = int(np.argmax(np.abs(Ym - par * Y).max(axis=1)))
+            bad.append(dict(clause="parity (-1)^l under inversion", lm=list(lm[k]), error=float(np.abs(Ym - par * Y).max())))
+        return bad
+
+    def __call__(self, ob, tier, seed):
+        from pycv.framework import BOUNDED_OK
+
+        try:
+            bad = self.problems()
+        except Exception as e:  # noqa: BLE001
+            bad = [dict(raised=f"{type(e).__name__}: {e}")]
+        if bad:
+            return Result(REFUTED, backend="native", witness=bad[0], replayed=True, replay_info=dict(failing=bad), detail=f"real spherical harmonics: {bad[0]}")
+        return Result(BOUNDED_OK, backend="native", detail="bounded: Gram matrix of the 16 harmonics l <= 3 on a 12 x 24 product quadrature (exact for these polynomials) is the identity; parity (-1)^l")
+
+    def replay(self, wit):
+        bad = self.problems()
+        return bool(bad), dict(failing=bad)
+
+
+register(Obligation(name="C12.Ylm_real.orthonormal_over_the_sphere", prop=PROP, engine="B", bounded=True, run=YlmOrthonormal(), functions=["eminus.utils:Ylm_real"],
+                    doc="BOUNDED: the angular parts of the projectors (16 real spherical harmonics) are orthonormal over the whole sphere and have parity (-1)^l"))
